@@ -710,9 +710,11 @@ func (l *lexer) lexHeredoc() action {
 // scanHeredoc reads the bodies of the pending here-documents. It must be
 // called right after the <newline> which follows them.
 func (l *lexer) scanHeredoc() bool {
+	// line which continues the previous line
+	var cont int
 	find := func(r *ast.Redir, delim string) bool {
 		for i := len(l.word) - 1; i >= 0; i-- {
-			if l.word[i].Pos().Col() == 1 {
+			if pos := l.word[i].Pos(); pos.Col() == 1 && pos.Line() != cont {
 				s := l.print(l.word[i:])
 				if r.Op == "<<-" {
 					// leading tabs are stripped from the delimiter line
@@ -790,6 +792,10 @@ func (l *lexer) scanHeredoc() bool {
 						goto Error
 					}
 					l.esc(r)
+					if r == '\n' {
+						// line continuation
+						cont = l.line
+					}
 				case '$':
 					// parameter expansion
 					l.lit()
